@@ -47,6 +47,7 @@ def tail_script(period, total):
 class C16(Prop):
     pid = "C16"
     lean_module = "RxModel.Props.C16"
+    extra_modules = ("RxModel.Props.C16C",)
     design_ref = "DESIGN.md §6 C16"
     rule = ("producers {interval on the virtual clock, from_iter over a counting iterator, from_stream / "
             "from_stream_result over a long always-ready (or unbounded, or pending-interleaved) scripted stream} x chains (<=3) of "
